@@ -6,6 +6,7 @@
 
 int main(void)
 {
+  setvbuf(stdout, NULL, _IOLBF, 0);   /* a crash must not lose the lines of earlier cases */
   while(vh_next()) {
     if(vh_ntok < 5) { printf("ERR case\n"); continue; }
     int lines = vh_int(0), cols = vh_int(1), slrm = vh_int(2), colon = vh_int(3), rgb = vh_int(4);
